@@ -727,7 +727,7 @@ def interval_overlap(a: int, b: int, x: int, y: int) -> int:
     """Returns by how much two intervals overlap
 
     assumed that a <= b and x <= y"""
-    if b <= x or a >= y:
+    if b <= x or a >= y or x == y:
         return 0
     elif x <= a <= y:
         return min(b, y) - a
